@@ -143,7 +143,7 @@ Definition Pstore (P : cmd -> Prop) (s : db) : Prop := forall r l, aget (store s
 (* ------------------------------------------------------------------ timeout frame *)
 (* fields of a live waiter (l_timeouted = false) that no non-sweeping critical section may change *)
 Definition tsame (l l' : lockrec) : Prop :=
-  l_tT l' = l_tT l /\ l_tcc l' = l_tcc l /\ l_cmd l' = l_cmd l /\ l_start l' = l_start l /\ l_conn l' = l_conn l
+  l_tT l' = l_tT l /\ l_cmd l' = l_cmd l /\ l_start l' = l_start l /\ l_conn l' = l_conn l
   /\ l_key l' = l_key l.
 
 Lemma tsame_refl l : tsame l l.
@@ -171,7 +171,8 @@ Record tframe (C : cmd -> Prop) (s s' : db) : Prop := mkTframe {
                       /\ forall k, In r (wheel_get (tlong s) k) -> In r (wheel_get (tlong s') k);
   tf_cmd : forall r l', aget (store s') r = Some l' ->
            C (l_cmd l') \/ exists l, aget (store s) r = Some l /\ l_cmd l' = l_cmd l;
-  tf_hold : forall r, isholder s' r -> isholder s r \/ tdead s' r
+  tf_keys : forall r l', aget (store s') r = Some l' -> (exists l, aget (store s) r = Some l) \/ r < next s';
+  tf_hold : forall r, isholder s' r -> isholder s r \/ (tdead s' r /\ r < next s')
 }.
 
 Lemma tframe_refl C s : tframe C s s.
@@ -179,6 +180,7 @@ Proof.
   constructor; auto; try lia.
   - intros r l' H1 H2. exists l'. lsplit; auto.
   - intros r l' H. right; eauto.
+  - intros r l' H. left; eauto.
 Qed.
 
 Lemma tframe_dead C s s' r : tframe C s s' -> tdead s r -> tdead s' r.
@@ -190,14 +192,15 @@ Qed.
 Lemma tframe_trans C a b c : tframe C a b -> tframe C b c -> tframe C a c.
 Proof.
   intros F1 F2. pose proof (fun r => tframe_dead _ _ _ r F2) as DD. revert F1 F2.
-  intros [n1 c1 x1 w1 g1 v1 m1 h1] [n2 c2 x2 w2 g2 v2 m2 h2]. constructor; try congruence; try lia.
+  intros [n1 c1 x1 w1 g1 v1 m1 y1 h1] [n2 c2 x2 w2 g2 v2 m2 y2 h2]. constructor; try congruence; try lia.
   - auto.
   - intros r l' H1 H2. destruct (v2 r l' H1 H2) as (l1 & A1 & A2 & A3 & A4).
     destruct (v1 r l1 A1 A2) as (l0 & B1 & B2 & B3 & B4).
     exists l0. split; [auto|split; [auto|split; [eapply tsame_trans; eauto|auto]]].
   - intros r l' H. destruct (m2 r l' H) as [|(l1 & A1 & A2)]; auto.
     destruct (m1 r l1 A1) as [|(l0 & B1 & B2)]; [left; congruence|right; exists l0; split; congruence].
-  - intros r H. destruct (h2 r H) as [H'|]; auto. destruct (h1 r H'); auto.
+  - intros r l' H. destruct (y2 r l' H) as [(l1 & A1)|]; auto. destruct (y1 r l1 A1); auto. right; lia.
+  - intros r H. destruct (h2 r H) as [H'|]; auto. destruct (h1 r H') as [|[D L]]; auto. right. split; auto. lia.
 Qed.
 
 (* mutators that leave the timer view alone and add no holder reference *)
@@ -208,6 +211,7 @@ Proof.
   - rewrite E8; auto.
   - rewrite E6, E8. intros r l' H1 H2. exists l'. lsplit; auto.
   - rewrite E6. intros r l' H. right; eauto.
+  - rewrite E6. intros r l' H. left; eauto.
 Qed.
 
 Lemma isholder_mgrs s s' r : mgrs s' = mgrs s -> isholder s' r -> isholder s r.
@@ -252,7 +256,8 @@ Lemma tframe_store C s s' :
   now s' = now s -> checkT s' = checkT s -> next s <= next s' -> twheel s' = twheel s -> tlong s' = tlong s ->
   mgrs s' = mgrs s ->
   (forall r l', aget (store s') r = Some l' ->
-     (l_timeouted l' = true /\ (C (l_cmd l') \/ exists l, aget (store s) r = Some l /\ l_cmd l' = l_cmd l))
+     (l_timeouted l' = true /\ (C (l_cmd l') \/ exists l, aget (store s) r = Some l /\ l_cmd l' = l_cmd l)
+      /\ (r < next s' \/ exists l, aget (store s) r = Some l))
      \/ exists l, aget (store s) r = Some l /\ l_cmd l' = l_cmd l /\ (l_timeouted l' = false -> l_timeouted l = false /\ tsame l l')) ->
   tframe C s s'.
 Proof.
@@ -260,7 +265,8 @@ Proof.
   - rewrite E5; auto.
   - intros r l' H1 H2. rewrite E5. destruct (H r l' H1) as [[A _]|(l & A & B & D)]; [congruence|].
     destruct (D H2). exists l. lsplit; auto.
-  - intros r l' H1. destruct (H r l' H1) as [[_ A]|(l & A & B & D)]; auto. right; eauto.
+  - intros r l' H1. destruct (H r l' H1) as [(_ & A & _)|(l & A & B & D)]; auto. right; eauto.
+  - intros r l' H1. destruct (H r l' H1) as [(_ & _ & [A|A])|(l & A & B & D)]; eauto.
   - intros r Hh. left. eapply isholder_mgrs; eauto.
 Qed.
 
@@ -284,11 +290,12 @@ Qed.
 (* a record that is not a live waiter may be rewritten arbitrarily, as long as it stays dead *)
 Lemma tframe_setl_dead C s r l' :
   l_timeouted l' = true -> C (l_cmd l') \/ (exists l0, aget (store s) r = Some l0 /\ l_cmd l' = l_cmd l0) ->
+  r < next s ->
   tframe C s (setl s r l').
 Proof.
-  intros D Hc. apply tframe_store; try reflexivity; try (cbn; lia).
+  intros D Hc FR. apply tframe_store; try reflexivity; try (cbn; lia).
   intros r' l1 H1. rewrite aget_setl in H1. destruct (r =? r') eqn:E.
-  - injection H1 as <-. apply N.eqb_eq in E; subst r'. left. split; auto.
+  - injection H1 as <-. apply N.eqb_eq in E; subst r'. left. lsplit; auto.
   - right. exists l1. lsplit; auto.
 Qed.
 
@@ -339,7 +346,7 @@ Proof.
   apply tframe_store; try reflexivity; try (cbn; lia).
   intros r' l1 H1. change (aget (aset (store s) (next s) nl) r' = Some l1) in H1.
   rewrite aget_aset in H1. destruct (next s =? r') eqn:E.
-  - injection H1 as <-. left. split; auto.
+  - injection H1 as <-. left. lsplit; auto. left. apply N.eqb_eq in E. subst r'. cbn. lia.
   - right. exists l1. lsplit; auto.
 Qed.
 
@@ -354,7 +361,7 @@ Proof.
     - intros r' l' H1. rewrite aget_updl in H1. destruct (r =? r') eqn:E.
       + apply N.eqb_eq in E; subst r'.
         destruct (aget (store s0) r) eqn:G; cbn in H1; try discriminate. injection H1 as <-.
-        left. rewrite Hf. rewrite Hs in G. split; [apply (D _ G)|]. right. exists l. split; [congruence|auto].
+        left. rewrite Hf. pose proof G as G'. rewrite Hs in G. lsplit; [apply (D _ G)| |]; right; exists l; auto.
       + right. exists l'. lsplit; auto. }
   destruct (aget (tlong s) (lkey (l_tT (getl s r)))) eqn:G.
   - eapply tframe_trans; [|apply U; auto].
@@ -375,6 +382,7 @@ Proof.
     + intros r' l' H1 H2. exists l'. lsplit; auto. intros k I. apply W. split; auto.
       intros _ ->. rewrite (D _ H1) in H2. discriminate.
     + intros r' l' H1. right; eauto.
+    + intros r' l' H1. left; eauto.
     + intros x Hx. left. eapply isholder_mgrs; eauto.
   - apply U; auto.
 Qed.
